@@ -82,7 +82,8 @@ func genC20(g *Gen) any {
 	maybe(0.9, "NumConn", "4", "1", "2", "0", "-1", "3")
 	maybe(0.7, "BrowserSig", "chrome", "firefox", "safari", "Firefox", "CHROME")
 	maybe(0.5, "CDNOriginHost", "origin.example.net", "cdn-origin.test")
-	maybe(0.5, "CDNWsUrlPath", "/", "/ws", "/deep/path/x")
+	// (paths with a query or an escape: README - the option is the first line of the request as written)
+	maybe(0.5, "CDNWsUrlPath", "/", "/ws", "/deep/path/x", "/ws?ed=2048", "/files%2Fcloak", "/a/b?token=x%20y&v=1")
 	maybe(0.6, "StreamTimeout", "300", "1", "7", "60", "1000")
 	maybe(0.6, "KeepAlive", "0", "-5", "1", "15", "30", "7200")
 	add("RemoteHost", "@REMOTE")
